@@ -725,7 +725,6 @@ func ruleT6d(c *Ctx) *RuleResult {
 	return r
 }
 
-
 // controlsValue: cond is the branch condition of a predecessor of a (short-circuit) phi in the expression tree of v.
 func controlsValue(cond ssa.Value, v ssa.Value) bool {
 	seen := map[ssa.Value]bool{}
